@@ -17,7 +17,9 @@ RULE = ('A recorder replaces the random source seen by the id generator (secrets
         'each change the id; windows of 2^12 (quick) consecutive issues across the wrap are '
         'pairwise distinct; thorough: the full period of 2^24 consecutive issues under a constant '
         'source, from two starts, is pairwise distinct (exhaustive, each shard holds one hash '
-        'bucket of all ids). Non-trivial: window crossing the wrap, or constant/repeating source, '
+        'bucket of all ids); histories of 2..9 open requests (polling / WebSocket, accepted / '
+        'refused by False, text or an exception, settled or overlapping) on real servers under a '
+        'constant source: every id handed to the connect handler is distinct. Non-trivial: window crossing the wrap, or constant/repeating source, '
         'or offsets more than 2^16 apart. Distinct: hash of the case.')
 ASSUMPTIONS = ['the issue counter is reachable as server.sequence_number (anchored state) so that a '
                'window can start at a chosen value; if it is not, the check exits 2',
@@ -108,8 +110,72 @@ def setup():
     for s in servers:
         if not isinstance(getattr(s, 'sequence_number', None), int):
             raise HarnessError('server.sequence_number is not an int attribute any more')
-    _state.update(src=src, servers=servers)
+    _state.update(src=src, servers=servers, fake_secrets=fake_secrets)
     return _state
+
+
+# -- ids issued through real open requests (accepted and refused connections) -------------------
+open_case = st.fixed_dictionaries({
+    'impl': st.sampled_from(['thread', 'async']),
+    'start': st.deferred(lambda: starts),
+    'source': st.deferred(lambda: src_bytes),
+    'opens': st.lists(st.tuples(st.sampled_from(['polling', 'polling', 'websocket']),
+                                st.sampled_from(['accept', 'accept', 'false', 'raise', 'text']),
+                                st.booleans()),      # settle after this open?
+                      min_size=2, max_size=9),
+})
+
+
+def check_opens(case, ctx=None):
+    """Every id the server hands to the connect handler is an issued id: all of them, accepted
+    or refused, overlapping or not, are distinct and well formed - whatever the random source."""
+    from vk.machine import make_world
+    import engineio.base_server as bs
+    st_ = setup()
+    rep = {'opens_case': {'impl': case['impl'], 'start': case['start'],
+                          'source': case['source'].hex(),
+                          'opens': [list(o) for o in case['opens']]}}
+    w = make_world(case['impl'], {})
+    try:
+        src = st_['src']
+        src.mode = ('const', case['source'])
+        src.flip = None
+        bs.secrets = st_['fake_secrets']
+        w.server.sequence_number = case['start'] & 0xffffff
+        for i, (kind, outcome, settle) in enumerate(case['opens']):
+            if outcome == 'raise':
+                w.app_log.outcome_by_ord[i] = ('raise',)
+            elif outcome == 'false':
+                w.app_log.outcome_by_ord[i] = ('ret', False)
+            elif outcome == 'text':
+                w.app_log.outcome_by_ord[i] = ('ret', 'no')
+            hdrs = [('X-Verif-Open', str(i)), ('Host', 'localhost')]
+            if kind == 'polling':
+                w.http('GET', 'transport=polling&EIO=4', headers=hdrs)
+            else:
+                w.ws_open('transport=websocket&EIO=4', headers=hdrs)
+            if settle:
+                w.settle()
+        w.settle()
+        ids = [e[2] for e in w.app_log.events if e[1] == 'connect']
+        for x in ids:
+            if not isinstance(x, str) or not FMT.match(x):
+                raise V('id-format', 'open', 'id %r handed to the connect handler' % (x,), rep)
+        if len(set(ids)) != len(ids):
+            dup = sorted(set(x for x in ids if ids.count(x) > 1))
+            refused = [o[1] != 'accept' for o in case['opens']]
+            raise V('duplicate-id-across-opens',
+                    'after-refusal' if any(refused) else 'all-accepted',
+                    'ids handed to the connect handler %r: %r issued more than once' % (ids, dup),
+                    rep)
+        if ctx:
+            nref = sum(1 for o in case['opens'] if o[1] != 'accept')
+            ctx.case(rep, nref > 0 and len(ids) >= 2,
+                     ['issued-through-opens', 'refusals=%d' % min(nref, 3),
+                      'overlapping-opens' if not all(o[2] for o in case['opens']) else 'sequential'])
+    finally:
+        w.teardown()
+        bs.secrets = st_['fake_secrets']
 
 
 def issue(server, src, counter, mode, flip=None):
@@ -240,6 +306,7 @@ def run_shard(ctx):
                     ctx.add_violation(v)
     run_given(ctx, st.tuples(st.integers(0, 1), st.integers(0, PERIOD - 1), src_bytes),
               lambda c: check_step(c[0], c[1], c[2], ctx), max_examples=60 if quick else 1000)
+    run_given(ctx, open_case, lambda c: check_opens(c, ctx), max_examples=40 if quick else 600)
     # consecutive windows, several starts, both servers
     wins = [(0, 0), (0, PERIOD - 2048), (1, PERIOD - 1), (1, 65000), (0, PERIOD // 2 - 100)]
     n = 4096 if quick else 65536
@@ -265,6 +332,11 @@ def run_shard(ctx):
 
 
 def replay(case, ctx):
+    if 'opens_case' in case:
+        oc = case['opens_case']
+        return check_opens({'impl': oc['impl'], 'start': oc['start'],
+                            'source': bytes.fromhex(oc['source']),
+                            'opens': [tuple(o) for o in oc['opens']]})
     if 'step_from' in case:
         return check_step(case['server'], case['step_from'], bytes.fromhex(case['source']))
     if 'window_start' in case:
